@@ -24,11 +24,13 @@ REQ = "From CfdmV Require Import Common.Base C04.Model C04.Run.\nOpen Scope stri
 MODEL_FILES = ["Model", "Run"]
 
 # instances per class in the reflection sweep
-QUOTA = {"quick": {"Field": 3, "Data": 4, "Domain": 2, "Constructs": 2, "*": 2},
+QUOTA = {"quick": {"Field": 3, "Data": 4, "Domain": 2, "Constructs": 2, "*": 1},
          "thorough": {"Field": 14, "Data": 24, "Domain": 10, "Constructs": 10, "*": 8}}
 # labels that are always included (minimised past failures / structurally special)
 ALWAYS = ["g0", "f6.auxiliarycoordinate0", "data.masked", "array.numpy.masked", "f3c.data", "f1.coordinatereference1",
           "f1.dimensioncoordinate0", "cellmethod.new", "file-netCDF4-0.data"]
+# file-backed fields re-read every variable for each fingerprint: swept in the thorough tier only
+SLOW = ("file-netCDF4-0", "file-netCDF4-1", "file-h5netcdf-0", "file-h5netcdf-1")
 
 
 def g_obj(t):
@@ -70,10 +72,23 @@ def choose_labels(chk, labels):
         for l in ls:
             if have >= q:
                 break
+            if chk.tier == "quick" and (l in SLOW or any(l == s + x for s in SLOW for x in (".domain", ".constructs",
+                                                                                          ".constructs.filtered"))):
+                continue
             if l not in chosen:
                 chosen.append(l)
                 have += 1
     return chosen
+
+
+def where(diff):
+    """The part of the state that changed: first component of the first differing path."""
+    if not diff:
+        return "?"
+    p = diff[0].split(":")[0].strip("/$.")
+    for sep in ("/", "["):
+        p = p.split(sep)[0] if p.split(sep)[0] else p
+    return p[:40] or "?"
 
 
 def classify(row):
@@ -95,9 +110,9 @@ def classify(row):
         if row.get("outcome_mismatch"):
             return f"inplace-outcome-mismatch:{m}"
     if row.get("pool_changed"):
-        return f"source-changed-by-operation-on-copy:{row.get('pool_changed')}:{m}"
+        return f"source-changed-by-operation-on-copy:{row.get('pool_changed')}:{where(row.get('pool_diff'))}"
     if row.get("changed"):
-        return f"copy-changed-by-operation-on-source:{row.get('changed')}:{m}"
+        return f"copy-changed-by-operation-on-source:{row.get('changed')}:{where(row.get('diff'))}"
     if row.get("copyfid"):
         return f"copy-not-faithful:{row.get('cls')}"
     return f"other:{m}"
@@ -168,7 +183,7 @@ def run(chk, model_ok):
                       "observed": {k: v for k, v in r.items() if k not in ("kw",)}})
 
     # ---- (2) copy recipes against the model --------------------------------------------------------
-    glabels = sorted(set(chosen) | set(l for l, c in labels if chk.rng.random() < (0.6 if thorough else 0.12)))
+    glabels = sorted(set(chosen) | set(l for l, c in labels if chk.rng.random() < (0.6 if thorough else 0.15)))
     gsh = [glabels[i::8] for i in range(8)]
     gres = lib.run_workers_parallel(
         "drive/c04.py", [{"mode": "graph", "scratch": chk.scratch, "labels": sh, "how": ["copy", "deepcopy"],
